@@ -4,7 +4,7 @@
 cd /verif
 git -C /repo diff --quiet || { echo "/repo has uncommitted changes"; exit 2; }
 ids="$@"; [ -z "$ids" ] && ids=$(ls seeded)
-out=seeded/REGRESSION.txt; : > $out.tmp
+out=seeded/REGRESSION.txt; : > $out.tmp; [ -n "$RESUME" ] && cat $RESUME > $out.tmp
 for id in $ids; do
   pid=${id%%-*}
   git -C /repo apply /verif/seeded/$id/patch.diff 2>/dev/null || { echo "$id patch-does-not-apply" | tee -a $out.tmp; continue; }
